@@ -192,7 +192,7 @@ def run(c: checklib.Check):
         c.add_tlc(f"Polling:neg_{dev}", r)
         if inv not in r.violated or r.errors:
             c.machinery_failure(f"negative config Polling_neg_{dev}.cfg: expected {inv} violated, got {r.violated} {r.errors[:2]}")
-    cfg = "Polling_thorough.cfg" if c.thorough else "Polling_quick.cfg"
+    cfg = "Polling_quick.cfg"
     r = tlc.run_tlc("Polling", cfg, workers=c.jobs, coverage=True, timeout=3000, heap="8g")
     c.add_tlc("Polling:" + cfg, r)
     if not r.ok:
@@ -200,18 +200,29 @@ def run(c: checklib.Check):
     dead = [a for a in ACTIONS if r.coverage.get(a, 0) == 0]
     if dead:
         c.machinery_failure(f"vacuity: actions never taken in {cfg}: {dead}")
+    tag = tlc.find_tagged(r.output, "C10INIT")
+    n_init = len(sp.init_trees((1, 2), 2))
+    if not tag or tag[0][1] != n_init:
+        c.machinery_failure(f"{cfg}: TLC has {tag} initial trees, the Python enumeration {n_init}")
+    if c.thorough:
+        c.note(f"TLC {cfg}: {r.distinct} distinct states, depth {r.depth}, {r.wall:.1f}s (action coverage checked)")
+        cfg = "Polling_thorough.cfg"
+        r = tlc.run_tlc("Polling", cfg, workers=c.jobs, timeout=3000, heap="12g")
+        c.add_tlc("Polling:" + cfg, r)
+        if not r.ok:
+            c.machinery_failure(f"design spec {cfg}: violated={r.violated} errors={r.errors[:2]}\n{r.output[-1500:]}")
     c.note(f"TLC {cfg}: {r.distinct} distinct states, depth {r.depth}, {len(INVARIANTS)} properties, {r.wall:.1f}s; "
            f"negative configs rejected: {sorted(NEGATIVE)}")
 
     # ---- 2. code -> spec
-    names, pool = (1, 2), (1, 2, 3)
+    names, pool = (1, 2), ((1, 2, 3, 4) if c.thorough else (1, 2, 3))
     max_entries = 2
     inits = sp.init_trees(names, max_entries)
     histories = []
     for t0 in inits:
         histories.append(([t0], (0, 1)))                        # nothing ever changes
         for op1, t1 in sp.successors(t0, names, pool, max_entries):
-            histories.append(([t0, t1], (0, 1) if c.thorough else (1,)))   # faults in (the baseline and) the poll
+            histories.append(([t0, t1], (0, 1)))                 # a fault in the baseline or in the poll
             if c.thorough:
                 for op2, t2 in sp.successors(t1, names, pool, max_entries + 1):
                     histories.append(([t0, t1, t2], (1, 2)))     # 3 states: a fault in either poll
@@ -278,7 +289,7 @@ def run(c: checklib.Check):
     c.add_trace_stats("PollingTrace", len(all_traces), stats)
     c.cov["states"] += stats["distinct"]
     c.cov["transitions"] += stats["generated"]
-    nbad = 0
+    nbad = ndrift = 0
     for tr, meta, v in zip(all_traces, metas, verdicts):
         if v["accepted"] and not v["viol"]:
             continue
@@ -286,6 +297,9 @@ def run(c: checklib.Check):
             line = tr[v["furthest"] - 1] if 0 < v["furthest"] <= len(tr) else None
             c.machinery_failure(f"PollingTrace cannot consume line {v['furthest']}: {line}")
         for code in sorted(v["viol"]):
+            if code < 0:
+                ndrift += -code          # Level I: events differ from the model's EmitDiff; never a verdict (DESIGN §3)
+                continue
             lno, k = code // 16, code % 16
             clause = CLAUSES.get(k, f"P_C10_{k}")
             ln = tr[lno - 1]
@@ -298,6 +312,9 @@ def run(c: checklib.Check):
             c.violation(clause, f"{clause} fails at line {lno} of a {meta['kind']} trace: "
                                 f"{json.dumps(ln)[:700]}  (previous line: {json.dumps(tr[lno - 2])[:400] if lno > 1 else None})",
                         rp, signature=clause)
+    c.cov["drift_traces"] += ndrift
+    c.note(f"Level I: {ndrift} polls whose events differ from Polling!EventsOf(SnapshotDiff!Diff(..)) (drift; 0 = the "
+           f"model describes the code)")
     c.note(f"PollingTrace: {len(all_traces)} traces / {sum(len(t) for t in all_traces)} lines validated in "
            f"{stats['wall_s']}s, {nbad} clause failures")
 
@@ -326,5 +343,35 @@ def run(c: checklib.Check):
     ]
 
 
+def replay(path):
+    """--replay of a recorded direct / snapshot trace: re-execute the real code on the recorded trees and faults and
+    validate the fresh trace (threaded traces are replayed by checklib through the recorded schedule)."""
+    d = json.load(open(path))
+    rp = d.get("replay", {})
+    kind = rp.get("meta", {}).get("kind")
+    if kind not in ("history", "random", "snap"):
+        return None
+    polling, api, ds = real_modules()
+    print(f"replay of {d.get('property')} clause={d.get('clause')}: {d.get('what')[:300]}")
+    if kind == "snap":
+        ln = rp["trace"][0]
+        tree = {tuple(p): (i, k, m, z) for p, i, k, m, z in ln["tree"]}
+        f = ln["fault"]
+        fresh = [sp.take_snapshot(ds, ln["rec"], tree, f.get("n", 0), f["err"] if f.get("n", 0) else None)[0]]
+    else:
+        rec, steps = sp.steps_of_trace(rp["trace"])
+        fresh, _ = sp.drive_direct((polling, api), rec, steps)
+    for ln in fresh:
+        print("  ", json.dumps(ln))
+    verdicts, _ = tlc.validate_traces("PollingTrace", "PollingTrace.cfg", [fresh], parallel=1, dfs_queue=False)
+    bad = [(code // 16, CLAUSES.get(code % 16)) for code in verdicts[0]["viol"] if code > 0]
+    print("verdict:", "accepted" if not bad else f"violated (line, clause): {bad}")
+    return 1 if bad else 0
+
+
 if __name__ == "__main__":
+    if "--replay" in sys.argv:
+        rc = replay(sys.argv[sys.argv.index("--replay") + 1])
+        if rc is not None:
+            sys.exit(rc)
     checklib.main_wrapper("C10", run)
